@@ -402,7 +402,7 @@ func c07ReentrantWait(c *Check, a *Anchors) {
 		c.Errorf("reentrant-wait-guarded: no waiting path")
 		return
 	}
-	c.Decide(unguarded == "", "reentrant-wait-guarded", "wait@"+d.name, a.Dedup.Decl.Pos(), "every wait is guarded by an ancestor test",
+	c.Decide(unguarded == "", "reentrant-wait-guarded", "wait@dedup-function", a.Dedup.Decl.Pos(), "every wait is guarded by an ancestor test",
 		"a task that (transitively) depends on itself through a run: once / when_changed task waits for its own execution: the invocation hangs instead of ending with error 204/201 (no test on ancestor data between the lookup and the blocking receive)")
 }
 
